@@ -23,6 +23,9 @@ type WriteBufItem[K comparable, V any] struct {
 	rechedule  bool
 	fromNVM    bool
 	hash       uint64
+	// only set on a WAIT marker: closed once everything queued before the
+	// marker has been applied
+	done chan struct{}
 }
 
 type MetaData[K comparable, V any] struct {
